@@ -869,6 +869,12 @@ func (pc *PartitionContext) tryPlaceholderAllocate() *objects.AllocationResult {
 			zap.String("appID", result.Request.GetApplicationID()),
 			zap.String("allocationKey", result.Request.GetAllocationKey()),
 			zap.String("placeholder released allocationKey", result.Request.GetRelease().GetAllocationKey()))
+		// the ask is allocated now: a reservation it made earlier must not stay behind
+		if app := pc.getApplication(result.Request.GetApplicationID()); app != nil {
+			if reservedNode := pc.GetNode(app.NodeReservedForAsk(result.Request.GetAllocationKey())); reservedNode != nil {
+				pc.unReserve(app, reservedNode, result.Request)
+			}
+		}
 		// pass the release back to the RM via the cluster context
 		return result
 	}
